@@ -180,6 +180,14 @@ class Package:
                 all(isinstance(t, ast.Name) for t in st.targets[0].elts):
             for t, v in zip(st.targets[0].elts, st.value.elts):
                 consts[t.id] = v
+        elif isinstance(st, ast.Assign) and len(st.targets) == 1 and isinstance(st.targets[0], ast.Tuple) and \
+                all(isinstance(t, ast.Name) for t in st.targets[0].elts):
+            # a, b, c = <expression>: each name is the corresponding element of the value
+            for k, t in enumerate(st.targets[0].elts):
+                consts[t.id] = ast.Subscript(value=ast.Call(func=ast.Name(id="list", ctx=ast.Load()), args=[st.value], keywords=[]),
+                                             slice=ast.Constant(value=k), ctx=ast.Load())
+                ast.copy_location(consts[t.id], st)
+                ast.fix_missing_locations(consts[t.id])
         elif isinstance(st, ast.AnnAssign) and isinstance(st.target, ast.Name) and st.value is not None:
             consts[st.target.id] = st.value
         elif isinstance(st, ast.If) and isinstance(st.test, ast.Name) and st.test.id == "TYPE_CHECKING":
